@@ -96,11 +96,9 @@ impl TypeRegistry {
                     .find(|ip| self.is_item_path(ip))
             })?;
 
-        // An announced item that has not been generated yet is not available yet
-        // (rather than absent, which would let a lower-precedence candidate win).
-        self.types
-            .contains_key(&item_path)
-            .then_some(Type::Raw(item_path))
+        // An announced item that has not been generated yet can be named already (a pointer to
+        // it is as good as any other); it has no size until it exists.
+        Some(Type::Raw(item_path))
     }
 
     pub(crate) fn resolve_grammar_type(
